@@ -1,6 +1,13 @@
 import CJ.Drv.Loop
-/-! Driver for C16 (stub until the models are written). -/
+import CJ.Drv.SctpConn
+import CJ.Drv.DtlsListener
+/-! Driver for C16: listener, SCTPConn, heartbeat filter, flow control, watchdog. -/
 open CJ.Drv
 
 def main : IO Unit := runDriver fun
+  | "dtls" :: args => DtlsListener.handle args
+  | "sctp" :: args => SctpConn.handleSctp args
+  | "hbsctp" :: args => SctpConn.handleHb args
+  | "flow" :: args => SctpConn.handleFlow args
+  | "wd" :: args => SctpConn.handleWd args
   | _ => none
